@@ -19,6 +19,11 @@ func GenC11(verifSeed uint64, run int) *Scenario {
 	g := NewRng(seed)
 	w := GenWorld(g, GenOpts{Small: true, SharedBias: true, PartialInvalidP: 0.5})
 	plan := &C11Plan{Perms: true, Short: true, NRandom: 40, HistSeed: g.Uint64()}
+	// one run in sixteen spends its budget on depth instead of breadth: every
+	// history of length three that ends in a packaging (31 x 31 x 5), so that
+	// state which needs two earlier operations to build up is not left to the
+	// 120 sampled triples (drawn last: the worlds of all runs stay as they were)
+	plan.Deep3 = g.Bool(1.0 / 16)
 	return &Scenario{Property: "C11", VerifSeed: verifSeed, Run: run, RunSeed: seed, World: w, C11: plan}
 }
 
@@ -98,6 +103,15 @@ func c11Histories(sc *Scenario) [][]Op {
 				out = append(out, []Op{{Op: "package", Format: f}, {Op: "package", Format: f}, {Op: "package", Format: h}})
 				if f != h {
 					out = append(out, []Op{{Op: "package", Format: f}, {Op: "package", Format: h}, {Op: "package", Format: f}})
+				}
+			}
+		}
+	}
+	if plan.Deep3 {
+		for _, a := range alphabet {
+			for _, b := range alphabet {
+				for _, f := range Formats {
+					out = append(out, []Op{a, b, {Op: "package", Format: f}})
 				}
 			}
 		}
@@ -302,6 +316,9 @@ func RunC11(rt *Runtime, sc *Scenario) RunResult {
 	cfgTag := hex.EncodeToString(cfgHash[:4])
 	distinct := map[string]bool{}
 	hists := c11Histories(sc)
+	if sc.C11.Deep3 {
+		res.Counters["probe.deep3_exhaustive_length_3"]++
+	}
 	for hi, h := range hists {
 		var trouble string
 		leaked := rt.InBubble(SimNow, func() {
